@@ -252,6 +252,9 @@ func (b *BundleAdd) UnmarshalBinary(data []byte) error {
 			if err != nil {
 				return err
 			}
+			if property.Len() == 0 {
+				return errors.New("decoded a BundlePropertyExperimenter of length 0")
+			}
 			b.Properties = append(b.Properties, property)
 			n += int(property.Len())
 		}
